@@ -223,6 +223,16 @@ CaseResult run_case(Tape &t, long)
         if (r != REPROC_EPIPE) fail("read-result", "far side closed and nothing pending: expected the closed-pipe error, got " + std::to_string(r));
       } else if (r != REPROC_EWOULDBLOCK) {
         fail("read-result", "pipe empty and open: expected the would-block error, got " + std::to_string(r));
+      } else {
+        // "would block" is not an end: asking again must give the same answer,
+        // and data written afterwards must still arrive
+        int r2 = reproc_read(ch.p, s == 1 ? REPROC_STREAM_OUT : REPROC_STREAM_ERR, buf.data(), buf.size());
+        if (r2 != REPROC_EWOULDBLOCK) fail("would-block-not-repeatable", "a second read on the still empty, still open pipe returned " + std::to_string(r2));
+        else if (k.alive) {
+          w.perform({ kid, vt::A_WRITE, s, 3 });
+          int r3 = reproc_read(ch.p, s == 1 ? REPROC_STREAM_OUT : REPROC_STREAM_ERR, buf.data(), buf.size());
+          if (r3 < 1 || r3 > 3) fail("data-after-would-block-lost", "after a would-block result the child wrote 3 bytes; the next read returned " + std::to_string(r3));
+        }
       }
     } else {
       if (!would_have_blocked) {
